@@ -1232,6 +1232,7 @@ func (r *Resolver) addSubscription(triggerID uint64, add *addSubscription) error
 	}
 	r.triggers[triggerID] = trig
 	updater.subsFn = trig.subscriptionIds
+	updater.trig = trig
 	r.registerSubscriptionLocked(trig, s)
 
 	if r.reporter != nil {
@@ -1256,11 +1257,11 @@ func (r *Resolver) addSubscription(triggerID uint64, add *addSubscription) error
 			for _, sub := range trig.snapshotSubscriptions() {
 				sub.writeError(r.errorFormatter, sub.ctx, err, sub.resolve.Response)
 			}
-			r.doneTriggerFromUpdater(triggerID)
+			r.doneTriggerFromUpdater(triggerID, trig)
 			return
 		}
 
-		r.markTriggerInitialized(triggerID)
+		r.markTriggerInitialized(triggerID, trig)
 
 		if r.options.Debug {
 			fmt.Printf("resolver:trigger:started:%d\n", triggerID)
@@ -1276,14 +1277,26 @@ func (r *Resolver) getTrigger(id uint64) (*trigger, bool) {
 	return trig, ok
 }
 
+// getOwnTrigger is getTrigger for callers that belong to one particular trigger (its
+// updater, its start-up goroutine). Trigger ids are a hash of input and headers, so
+// after the own trigger was removed a NEW trigger may be registered under the same id:
+// it is not theirs to act on. A nil own accepts any trigger.
+func (r *Resolver) getOwnTrigger(id uint64, own *trigger) (*trigger, bool) {
+	trig, ok := r.getTrigger(id)
+	if !ok || (own != nil && trig != own) {
+		return nil, false
+	}
+	return trig, true
+}
+
 // markTriggerInitialized marks a trigger as initialized and reports it.
-func (r *Resolver) markTriggerInitialized(triggerID uint64) {
+func (r *Resolver) markTriggerInitialized(triggerID uint64, own *trigger) {
 	// Hold r.mu across lookup, Store and Inc: removals read initialized under r.mu,
 	// so a removal can no longer slip in between and skip its TriggerCountDec.
 	r.mu.Lock()
 	defer r.mu.Unlock()
 	trig, ok := r.triggers[triggerID]
-	if !ok {
+	if !ok || (own != nil && trig != own) {
 		return
 	}
 	trig.initialized.Store(true)
@@ -1294,12 +1307,15 @@ func (r *Resolver) markTriggerInitialized(triggerID uint64) {
 
 // doneTriggerFromUpdater performs cleanup for a trigger from a datasource/updater goroutine.
 // It detaches the trigger, runs done toClose (close completed channels), and cancels the trigger context.
-func (r *Resolver) doneTriggerFromUpdater(triggerID uint64) {
+func (r *Resolver) doneTriggerFromUpdater(triggerID uint64, own *trigger) {
 	if r.options.Debug {
 		fmt.Printf("resolver:trigger:shutdown:%d\n", triggerID)
 	}
 	r.mu.Lock()
-	res := r.detachTriggerLocked(triggerID)
+	var res removeResult
+	if own == nil || r.triggers[triggerID] == own {
+		res = r.detachTriggerLocked(triggerID)
+	}
 	if r.reporter != nil {
 		r.reporter.SubscriptionCountDec(res.removed)
 		if res.initialized {
@@ -1315,8 +1331,8 @@ func (r *Resolver) doneTriggerFromUpdater(triggerID uint64) {
 
 // handleTriggerComplete delivers a complete signal to all subscriptions on the trigger.
 // Does NOT detach the trigger — Done() does that.
-func (r *Resolver) handleTriggerComplete(triggerID uint64) {
-	trig, ok := r.getTrigger(triggerID)
+func (r *Resolver) handleTriggerComplete(triggerID uint64, own *trigger) {
+	trig, ok := r.getOwnTrigger(triggerID, own)
 	if !ok {
 		return
 	}
@@ -1331,8 +1347,8 @@ func (r *Resolver) handleTriggerComplete(triggerID uint64) {
 
 // handleTriggerError delivers a terminal error to all subscriptions on the trigger,
 // bypassing the resolve pipeline. Does NOT detach the trigger — Done() does that.
-func (r *Resolver) handleTriggerError(triggerID uint64, data []byte) {
-	trig, ok := r.getTrigger(triggerID)
+func (r *Resolver) handleTriggerError(triggerID uint64, data []byte, own *trigger) {
+	trig, ok := r.getOwnTrigger(triggerID, own)
 	if !ok {
 		return
 	}
@@ -1491,8 +1507,8 @@ type pendingFilterError struct {
 }
 
 // handleTriggerUpdate sends data to all subscriptions of a trigger.
-func (r *Resolver) handleTriggerUpdate(id uint64, data []byte) {
-	trig, ok := r.getTrigger(id)
+func (r *Resolver) handleTriggerUpdate(id uint64, data []byte, own *trigger) {
+	trig, ok := r.getOwnTrigger(id, own)
 	if !ok {
 		return
 	}
@@ -1519,8 +1535,8 @@ func (r *Resolver) handleTriggerUpdate(id uint64, data []byte) {
 }
 
 // handleUpdateSubscription sends data to a single subscription.
-func (r *Resolver) handleUpdateSubscription(id uint64, data []byte, subIdentifier SubscriptionIdentifier) {
-	trig, ok := r.getTrigger(id)
+func (r *Resolver) handleUpdateSubscription(id uint64, data []byte, subIdentifier SubscriptionIdentifier, own *trigger) {
+	trig, ok := r.getOwnTrigger(id, own)
 	if !ok {
 		return
 	}
@@ -1541,7 +1557,12 @@ func (r *Resolver) handleUpdateSubscription(id uint64, data []byte, subIdentifie
 }
 
 func (r *Resolver) heartbeatTriggerSubscriptions(id uint64) {
-	trig, ok := r.getTrigger(id)
+	r.heartbeatOwnTriggerSubscriptions(id, nil)
+}
+
+// heartbeatOwnTriggerSubscriptions: see getOwnTrigger.
+func (r *Resolver) heartbeatOwnTriggerSubscriptions(id uint64, own *trigger) {
+	trig, ok := r.getOwnTrigger(id, own)
 	if !ok {
 		return
 	}
@@ -1929,6 +1950,9 @@ type subscriptionUpdater struct {
 	resolver  *Resolver
 	ctx       context.Context
 	subsFn    func() map[context.Context]SubscriptionIdentifier
+	// trig is the trigger this updater was created for. Trigger ids are re-used, so
+	// every by-id lookup made on behalf of the updater verifies it still finds trig.
+	trig *trigger
 }
 
 func (s *subscriptionUpdater) Update(data []byte) {
@@ -1940,7 +1964,7 @@ func (s *subscriptionUpdater) Update(data []byte) {
 	if s.debug {
 		fmt.Printf("resolver:subscription_updater:update:%d\n", s.triggerID)
 	}
-	s.resolver.handleTriggerUpdate(s.triggerID, data)
+	s.resolver.handleTriggerUpdate(s.triggerID, data, s.trig)
 }
 
 func (s *subscriptionUpdater) Heartbeat() {
@@ -1949,7 +1973,7 @@ func (s *subscriptionUpdater) Heartbeat() {
 	if s.done || s.ctx.Err() != nil {
 		return
 	}
-	s.resolver.heartbeatTriggerSubscriptions(s.triggerID)
+	s.resolver.heartbeatOwnTriggerSubscriptions(s.triggerID, s.trig)
 }
 
 func (s *subscriptionUpdater) UpdateSubscription(id SubscriptionIdentifier, data []byte) {
@@ -1961,7 +1985,7 @@ func (s *subscriptionUpdater) UpdateSubscription(id SubscriptionIdentifier, data
 	if s.debug {
 		fmt.Printf("resolver:subscription_updater:update:%d\n", s.triggerID)
 	}
-	s.resolver.handleUpdateSubscription(s.triggerID, data, id)
+	s.resolver.handleUpdateSubscription(s.triggerID, data, id, s.trig)
 }
 
 func (s *subscriptionUpdater) Subscriptions() map[context.Context]SubscriptionIdentifier {
@@ -1980,7 +2004,7 @@ func (s *subscriptionUpdater) Complete() {
 	if s.debug {
 		fmt.Printf("resolver:subscription_updater:complete:%d\n", s.triggerID)
 	}
-	s.resolver.handleTriggerComplete(s.triggerID)
+	s.resolver.handleTriggerComplete(s.triggerID, s.trig)
 }
 
 func (s *subscriptionUpdater) Error(data []byte) {
@@ -1995,7 +2019,7 @@ func (s *subscriptionUpdater) Error(data []byte) {
 	if s.debug {
 		fmt.Printf("resolver:subscription_updater:error:%d\n", s.triggerID)
 	}
-	s.resolver.handleTriggerError(s.triggerID, data)
+	s.resolver.handleTriggerError(s.triggerID, data, s.trig)
 }
 
 func (s *subscriptionUpdater) Done() {
@@ -2008,7 +2032,7 @@ func (s *subscriptionUpdater) Done() {
 	if s.debug {
 		fmt.Printf("resolver:subscription_updater:done:%d\n", s.triggerID)
 	}
-	s.resolver.doneTriggerFromUpdater(s.triggerID)
+	s.resolver.doneTriggerFromUpdater(s.triggerID, s.trig)
 }
 
 func (s *subscriptionUpdater) CloseSubscription(id SubscriptionIdentifier) {
